@@ -21,7 +21,9 @@ Record St : Type := mkSt {
   cap : nat;             (* polygon_.capacity() after reserve() *)
   tris : list tri;       (* result_ triangles, in emission order *)
   nclip : nat;           (* number of ClipEar calls so far (ghost counter) *)
-  nfilt : nat            (* ... of which filtered as topological degenerates *)
+  nfilt : nat;           (* ... of which filtered as topological degenerates *)
+  njoin : nat;           (* number of JoinPolygons calls (ghost counter) *)
+  nbad : nat             (* ghost: internal preconditions violated so far, see joinPolygons / clip_loop *)
 }.
 
 Definition bind {A B} (x : option A) (f : A -> option B) : option B :=
@@ -41,7 +43,12 @@ Definition getL (st : St) (v : nat) : option nat := option_map vleft (getV st v)
 Definition getR (st : St) (v : nat) : option nat := option_map vright (getV st v).
 Definition getM (st : St) (v : nat) : option Z := option_map midx (getV st v).
 
-Definition setPoly (st : St) (p : list vert) : St := mkSt p (cap st) (tris st) (nclip st) (nfilt st).
+Definition setPoly (st : St) (p : list vert) : St :=
+  mkSt p (cap st) (tris st) (nclip st) (nfilt st) (njoin st) (nbad st).
+Definition addBad (st : St) (b : bool) : St :=
+  mkSt (poly st) (cap st) (tris st) (nclip st) (nfilt st) (njoin st) (if b then S (nbad st) else nbad st).
+Definition addJoin (st : St) : St :=
+  mkSt (poly st) (cap st) (tris st) (nclip st) (nfilt st) (S (njoin st)) (nbad st).
 
 Definition setL (st : St) (v l : nat) : option St :=
   x <- getV st v ;; Some (setPoly st (upd (poly st) v (mkVert (midx x) l (vright x)))).
@@ -66,8 +73,8 @@ Definition clipEar (st : St) (e : nat) : option St :=
   st1 <- link st l r ;;
   ml <- getM st1 l ;; me <- getM st1 e ;; mr <- getM st1 r ;;
   if negb (ml =? me)%Z && negb (me =? mr)%Z && negb (mr =? ml)%Z
-  then Some (mkSt (poly st1) (cap st1) (tris st1 ++ [(ml, me, mr)]) (S (nclip st1)) (nfilt st1))
-  else Some (mkSt (poly st1) (cap st1) (tris st1) (S (nclip st1)) (S (nfilt st1))).
+  then Some (mkSt (poly st1) (cap st1) (tris st1 ++ [(ml, me, mr)]) (S (nclip st1)) (nfilt st1) (njoin st1) (nbad st1))
+  else Some (mkSt (poly st1) (cap st1) (tris st1) (S (nclip st1)) (S (nfilt st1)) (njoin st1) (nbad st1)).
 
 Record Oracle : Type := mkOracle {
   (* ClipIfDegenerate: IsShort || (CCW == 0 && dot > 0) *)
@@ -223,8 +230,12 @@ Fixpoint over_outers {A} (fuel : nat) (st : St) (outers : list nat) (f : A -> na
   | o :: t => '(vis, _) <- loop fuel st o ;; over_outers fuel st t f (fold_left f vis a)
   end.
 
-(* void JoinPolygons(VertItr start, VertItr connector) *)
-Definition joinPolygons (fuel : nat) (st : St) (s c : nat) : option St :=
+(* void JoinPolygons(VertItr start, VertItr connector)
+   ghost: nbad counts calls whose start or connector is clipped or whose connector is
+   start->right (the code assumes two different live rings); njoin counts calls *)
+Definition joinPolygons (fuel : nat) (st0 : St) (s c : nat) : option St :=
+  cs <- clipped st0 s ;; cc <- clipped st0 c ;; sr0 <- getR st0 s ;;
+  let st := addJoin (addBad st0 (cs || cc || (sr0 =? c))) in
   vs <- getV st s ;;
   let ns := length (poly st) in
   st1 <- push st vs ;;
@@ -280,7 +291,8 @@ Fixpoint clip_loop (k : nat) (st : St) (q : list nat) (v : nat) : option St :=
       | [] => (v, q)                               (* "No ear found!": keep the backup vert *)
       | h :: _ => let e := nth (o_pick orc st q) q h in (e, remove Nat.eq_dec e q)
       end in
-    st1 <- clipEar st e ;;
+    l0 <- getL st e ;; r0 <- getR st e ;;
+    st1 <- clipEar (addBad st (l0 =? r0)) e ;;     (* ghost: clipping a ring of <= 2 records *)
     l <- getL st1 e ;; r <- getR st1 e ;;
     let q2 := processEar st1 q1 l in
     let q3 := processEar st1 q2 r in
@@ -312,7 +324,7 @@ Definition numVert (polys : list (list Z)) : nat := fold_right (fun p s => lengt
 (* HalfedgeTriangulation EarClip::Triangulate(polys, epsilon) — Reset gives the
    empty state; polygon_.reserve(numVert + 2 * polys.size()) *)
 Definition reset (polys : list (list Z)) : St :=
-  mkSt [] (numVert polys + 2 * length polys) [] 0 0.
+  mkSt [] (numVert polys + 2 * length polys) [] 0 0 0 0.
 
 Definition triangulate (fuel : nat) (polys : list (list Z)) : option St :=
   '(st1, starts) <- initialize (reset polys) polys ;;
@@ -371,3 +383,23 @@ Definition live (st : St) (v : nat) : bool := Lf st (Rf st v) =? v.
 Definition live_edges (st : St) : chain :=
   flat_map (fun v => if live st v then [(Mf st v, Mf st (Rf st v))] else []) (seq 0 (size st)).
 Definition nlive (st : St) : nat := length (filter (live st) (seq 0 (size st))).
+(* DEBUG_ASSERT(v->right == v->left) for every record still linked: every remaining ring has <= 2 records *)
+Definition rings_closed (st : St) : bool :=
+  forallb (fun v => negb (live st v) || (Rf st (Rf st v) =? v)) (seq 0 (size st)).
+
+(* executable certificate for the state Initialize produces (evaluated on every replayed run):
+   all structural invariants, every record live, no triangles yet, live edges = input contours *)
+Definition inv_check (st : St) : bool :=
+  forallb (fun v =>
+    (Lf st v <? size st) && (Rf st v <? size st) &&
+    (negb (live st v) || (Rf st (Lf st v) =? v)) &&
+    (negb (live st v) || live st (Rf st v)) &&
+    (negb (Lf st v =? v) || live st v)) (seq 0 (size st)).
+Definition midx_check (ids : list Z) (st : St) : bool :=
+  forallb (fun v => existsb (Z.eqb (Mf st v)) ids) (seq 0 (size st)).
+Definition init_ok (polys : list (list Z)) (st : St) : bool :=
+  inv_check st && midx_check (concat polys) st &&
+  match tris st with [] => true | _ => false end &&
+  (nclip st =? 0) && (nfilt st =? 0) && (njoin st =? 0) && (nbad st =? 0) &&
+  (nlive st =? size st) && (size st =? numVert polys) &&
+  chain_eqb (live_edges st) (contours polys).
